@@ -40,10 +40,16 @@ func (ex *Exec) chiCall(fr *Frame, method string, sig *types.Signature, args []V
 		env := ex.newEnv(st, nil, nil, fr)
 		env.goal = true
 		roMode, ok1 := env.ghostVal("roMode", st)
-		roInst, ok2 := env.ghostVal("roInstalled", st)
+		_, ok2 := env.ghostVal("roInstalled", st)
 		if ok1 && ok2 {
+			// the filter must be installed on the very router this registration goes to (Use on it or on the router it
+			// was derived from with Route/Group/With); a filter given to With covers only the router With returns
+			inst := "false"
+			if len(args) > 0 && st.roRouters[routerKey(args[0])] {
+				inst = "true"
+			}
 			vc.curProps = []string{"C19"}
-			ex.obligationFull(fr, st, "protocol", "read-only mode: the method filter is installed before any route is registered", implies(roMode.T.S, roInst.T.S), false, fmt.Sprintf("roGuard@%d", ex.siteOrdinal(ex.cur)), true)
+			ex.obligationFull(fr, st, "protocol", "read-only mode: the method filter is installed on this router before any route is registered", implies(roMode.T.S, inst), false, fmt.Sprintf("roGuard@%d", ex.siteOrdinal(ex.cur)), true)
 			vc.curProps = nil
 		}
 	}
@@ -120,6 +126,9 @@ func (ex *Exec) chiCall(fr *Frame, method string, sig *types.Signature, args []V
 		}
 		sub := tv(vc.fresh("subrouter", SAny))
 		st.assume(not(app("=", sub.T.S, "any_nil")))
+		if st.roRouters[routerKey(args[0])] {
+			st.markRO(routerKey(sub))
+		}
 		res := routerResult()
 		ex.callFunc(fr, fn.Fn, fn.Bind, []Val{sub}, nil, st, func(st2 *State, _ Val, panicked bool) {
 			if panicked {
@@ -129,14 +138,29 @@ func (ex *Exec) chiCall(fr *Frame, method string, sig *types.Signature, args []V
 			k(st2, res, false)
 		})
 	case method == "With":
-		ex.chiUse(fr, args[1:], st, requireRead)
+		ro := ex.chiUse(fr, args[1:], st, requireRead)
 		r := routerResult()
 		if r.K == VTerm {
 			st.assume(not(app("=", r.T.S, vc.sorts.Zero(r.T.Sort).S)))
+			if ro || st.roRouters[routerKey(args[0])] {
+				st.markRO(routerKey(r))
+			}
+			if ro {
+				st.ghost["roInstalled"] = Term{"true", SBool}
+				if st.writes != nil {
+					st.writes.ghost["roInstalled"] = true
+				}
+			}
 		}
 		k(st, r, false)
 	case method == "Use":
-		ex.chiUse(fr, args[1:], st, requireRead)
+		if ex.chiUse(fr, args[1:], st, requireRead) {
+			st.markRO(routerKey(args[0]))
+			st.ghost["roInstalled"] = Term{"true", SBool}
+			if st.writes != nil {
+				st.writes.ghost["roInstalled"] = true
+			}
+		}
 		k(st, Val{}, false)
 	default:
 		return false
@@ -148,7 +172,8 @@ var chiWriteMethods = map[string]bool{"POST": true, "PUT": true, "PATCH": true, 
 
 // chiUse: middlewares. A middleware is func(http.Handler) http.Handler; for a repository
 // middleware we obtain the handler it builds by running it on an arbitrary next handler.
-func (ex *Exec) chiUse(fr *Frame, mws []Val, st *State, requireRead func(Val, string)) {
+// It reports whether api.ReadOnly is among them.
+func (ex *Exec) chiUse(fr *Frame, mws []Val, st *State, requireRead func(Val, string)) (readOnly bool) {
 	vc := ex.vc
 	var list []Val
 	for _, a := range mws {
@@ -163,7 +188,7 @@ func (ex *Exec) chiUse(fr *Frame, mws []Val, st *State, requireRead func(Val, st
 				continue
 			}
 			vc.fatalf("Use/With: middleware list is not a literal at %s", ex.where())
-			return
+			return false
 		}
 		list = append(list, a)
 	}
@@ -179,10 +204,7 @@ func (ex *Exec) chiUse(fr *Frame, mws []Val, st *State, requireRead func(Val, st
 		}
 		name := vc.prog.funcName(mw.Fn)
 		if name == "api.ReadOnly" {
-			st.ghost["roInstalled"] = Term{"true", SBool}
-			if st.writes != nil {
-				st.writes.ghost["roInstalled"] = true
-			}
+			readOnly = true
 			continue
 		}
 		if !vc.prog.inRepoFn(mw.Fn) {
@@ -200,6 +222,29 @@ func (ex *Exec) chiUse(fr *Frame, mws []Val, st *State, requireRead func(Val, st
 		})
 		ex.cur = cur
 	}
+	return readOnly
+}
+
+// routerKey identifies a router value whether it is held as *chi.Mux or boxed in a chi.Router interface.
+func routerKey(v Val) string {
+	if v.K != VTerm {
+		return fmt.Sprintf("?%p", &v)
+	}
+	s := v.T.S
+	if strings.HasPrefix(s, "(") && strings.HasSuffix(s, ")") {
+		if i := strings.Index(s, " "); i > 0 && !strings.ContainsAny(s[i+1:len(s)-1], " ()") {
+			return s[i+1 : len(s)-1]
+		}
+	}
+	return s
+}
+
+func (st *State) markRO(k string) {
+	n := map[string]bool{k: true}
+	for o := range st.roRouters {
+		n[o] = true
+	}
+	st.roRouters = n
 }
 
 // chiStatic recognises static calls of chi methods / constructors.
